@@ -108,7 +108,9 @@ def simulate(cfg, num, depth, seed, timeout=600, module='FBRefMC.tla'):
         m = re.search(r'(\d+) traces generated', out)
         ntr = int(m.group(1)) if m else 0
         ok = ('Error' not in out) and states > 0
-        return parse_hists(out), {'states': states, 'distinct': states, 'traces': ntr}, ok, out
+        rv = {'valid': out.count('<<"RV", "valid"'), 'invalid': out.count('<<"RV", "invalid"'),
+              'fuzzy': out.count('<<"RV", "fuzzy"')}
+        return parse_hists(out), {'states': states, 'distinct': states, 'traces': ntr, 'reuse_predictions_checked': rv}, ok, out
     finally:
         shutil.rmtree(work, ignore_errors=True)
 
@@ -117,6 +119,7 @@ def simulate_parallel(cfg, num, depth, seed, procs=16, timeout=900):
     from concurrent.futures import ThreadPoolExecutor
     hists = []
     stats = {'states': 0, 'distinct': 0, 'traces': 0}
+    rvs = {}
     oks = True
     errs = []
     with ThreadPoolExecutor(max_workers=procs) as ex:
@@ -126,6 +129,8 @@ def simulate_parallel(cfg, num, depth, seed, procs=16, timeout=900):
             hists += h
             for k in stats:
                 stats[k] += st[k]
+            for k, v in st.get('reuse_predictions_checked', {}).items():
+                rvs[k] = rvs.get(k, 0) + v
             if not ok:
                 oks = False
                 errs.append(out[-3000:])
@@ -137,4 +142,5 @@ def simulate_parallel(cfg, num, depth, seed, procs=16, timeout=900):
         if d not in seen:
             seen.add(d)
             uniq.append(h)
+    stats['reuse_predictions_checked'] = rvs
     return uniq, stats, oks, errs
